@@ -482,3 +482,44 @@ def cloneify(prog, rng, p=0.75):
             tag = fr["name"] + "1"          # Framer.newMootTag: the first insular clone of `a0` in a host is tagged a01
         alias["%s_%s" % (host["name"], tag)] = fr["name"]
     return prog2, alias
+
+
+
+def shuffle_frames(prog, rng):
+    """the same frames declared in another order (children before their parents, the frame that carries `under x` after x):
+    a different but legal program -- the first frame and every lexical successor are written out
+    (`first`, `next`), the order of the children follows the declaration order, which the static model (prog.Static) reads
+    from the AST as well.  Returns None when nothing could move."""
+    import copy
+    p2 = copy.deepcopy(prog)
+    moved = False
+    for h in p2["houses"]:
+        for fr in h["framers"]:
+            if len(fr["frames"]) < 2:
+                continue
+            if not fr.get("first"):
+                fr["first"] = fr["frames"][0]["name"]
+            # a frame with several children names its primary child (`under x`): without the clause the primary child is
+            # the child that is attached first when the over links are resolved, which for children declared before
+            # their parents is not a documented order (corner avoided, Appendix A.9)
+            kids = {}
+            for f in fr["frames"]:
+                if f.get("over"):
+                    kids.setdefault(f["over"], []).append(f["name"])
+            for f in fr["frames"]:
+                if len(kids.get(f["name"], [])) > 1 and not f.get("under"):
+                    f["under"] = kids[f["name"]][0]
+            # the lexical successor of every frame is written out (`next x`); the last frame, which has none, stays last
+            for i, f in enumerate(fr["frames"][:-1]):
+                if not f.get("next"):
+                    f["next"] = fr["frames"][i + 1]["name"]
+            order = list(fr["frames"][:-1])
+            for _ in range(4):
+                rng.shuffle(order)
+                if [f["name"] for f in order] != [f["name"] for f in fr["frames"][:-1]]:
+                    break
+            order.append(fr["frames"][-1])
+            if [f["name"] for f in order] != [f["name"] for f in fr["frames"]]:
+                moved = True
+            fr["frames"] = order
+    return p2 if moved else None
